@@ -9,13 +9,14 @@ VERIF = os.path.dirname(os.path.dirname(os.path.abspath(__file__)))
 sys.path.insert(0, VERIF)
 
 NOT_APPLICABLE = {}   # id -> reason (none at present)
+READY = set(open(os.path.join(VERIF, "tools", "ready.txt")).read().split())   # checks reviewed and registered
 
 props = [json.loads(l) for l in open(os.path.join(VERIF, "properties.jsonl"))]
 checks, na = [], []
 for p in props:
     pid = p["id"]
     path = os.path.join(VERIF, "harness", "props", pid.lower() + ".py")
-    if pid in NOT_APPLICABLE or not os.path.exists(path):
+    if pid in NOT_APPLICABLE or pid not in READY or not os.path.exists(path):
         na.append({"property_id": pid, "reason": NOT_APPLICABLE.get(
             pid, "check not built yet (model-based check planned in DESIGN.md section 5)")})
         continue
